@@ -60,6 +60,13 @@ def marshalDispatch (op : String) (args : List String) : Option String :=
         | .error e => match e with
           | .eof => "(err EOFError)" | .badData => "(err bad-marshal-data)" | .valueError => "(err ValueError)"
           | .outOfFuel => "(err OUT-OF-FUEL)")
+  | "py.unmarshal_strict", [maj, min, h] => do
+      let a ← parseNat maj; let b ← parseNat min; let data ← parseHex h
+      pure (match Spec.Marshal.loadsStrict [a, b] data with
+        | .ok (v, rest) => s!"{rest.length} {sexp (Spec.Marshal.port [a, b] v)}"
+        | .error e => match e with
+          | .eof => "(err EOFError)" | .badData => "(err bad-marshal-data)" | .valueError => "(err ValueError)"
+          | .outOfFuel => "(err OUT-OF-FUEL)")
   | _, _ => none
 
 end XV.Driver
